@@ -1,0 +1,130 @@
+//go:build verif
+
+package meta
+
+import (
+	"github.com/coregx/coregex/dfa/lazy"
+	"github.com/coregx/coregex/nfa"
+)
+
+// Verification-only accessors (build tag "verif"): read-only peeks at recycled
+// per-search state and construction-time knobs. Nothing here runs during a search.
+
+// VerifDFAs returns every lazy DFA owned by the engine or its strategy searchers,
+// keyed by role.
+func (e *Engine) VerifDFAs() map[string]*lazy.DFA {
+	m := map[string]*lazy.DFA{}
+	add := func(k string, d *lazy.DFA) {
+		if d != nil {
+			m[k] = d
+		}
+	}
+	add("fwd", e.dfa)
+	add("rev", e.reverseDFA)
+	if s := e.reverseSearcher; s != nil {
+		add("ra.rev", s.reverseDFA)
+	}
+	if s := e.reverseSuffixSearcher; s != nil {
+		add("rs.rev", s.reverseDFA)
+		add("rs.fwd", s.forwardDFA)
+	}
+	if s := e.reverseSuffixSetSearcher; s != nil {
+		add("rss.rev", s.reverseDFA)
+		add("rss.fwd", s.forwardDFA)
+	}
+	if s := e.reverseInnerSearcher; s != nil {
+		add("ri.rev", s.reverseDFA)
+		add("ri.fwd", s.forwardDFA)
+	}
+	if s := e.multilineReverseSuffixSearcher; s != nil {
+		add("mrs.fwd", s.forwardDFA)
+	}
+	return m
+}
+
+// VerifSetDFACache applies a cache capacity and clear budget to every lazy DFA of
+// the engine and discards any per-search state created so far, so that all caches
+// are created with the new values. Call right after compilation, before searching.
+func (e *Engine) VerifSetDFACache(capacityBytes, maxClears int) {
+	for _, d := range e.VerifDFAs() {
+		d.VerifSetCache(capacityBytes, maxClears)
+	}
+	e.localState.Store(nil)
+}
+
+// VerifBacktrackers returns the engine's bounded backtrackers (nil entries omitted).
+func (e *Engine) VerifBacktrackers() []*nfa.BoundedBacktracker {
+	var out []*nfa.BoundedBacktracker
+	if e.boundedBacktracker != nil {
+		out = append(out, e.boundedBacktracker)
+	}
+	if e.asciiBoundedBacktracker != nil {
+		out = append(out, e.asciiBoundedBacktracker)
+	}
+	return out
+}
+
+// VerifLocalState peeks at the single-slot state cache without taking it.
+func (e *Engine) VerifLocalState() *SearchState { return e.localState.Load() }
+
+// VerifStatePool returns a pointer to the engine's SearchState pool (its concrete
+// type is whatever pool implementation the build uses).
+func (e *Engine) VerifStatePool() any { return &e.statePool.pool }
+
+// VerifStateInfo is a snapshot of one SearchState's recycled buffers.
+type VerifStateInfo struct {
+	Caches       map[string]lazy.VerifCacheInfo
+	HasBT        bool
+	VisitedLen   int
+	VisitedCap   int
+	Generation   uint16
+	BTLongest    bool
+	OnepassSlots int
+}
+
+// VerifInfo returns a snapshot of the state's recycled buffers.
+func (s *SearchState) VerifInfo() VerifStateInfo {
+	info := VerifStateInfo{Caches: map[string]lazy.VerifCacheInfo{}}
+	add := func(k string, c *lazy.DFACache) {
+		if c != nil {
+			info.Caches[k] = c.VerifInfo()
+		}
+	}
+	add("fwd", s.dfaCache)
+	add("rev", s.revDFACache)
+	add("sfwd", s.stratFwdCache)
+	add("srev", s.stratRevCache)
+	if s.backtracker != nil {
+		info.HasBT = true
+		info.VisitedLen = len(s.backtracker.Visited)
+		info.VisitedCap = cap(s.backtracker.Visited)
+		info.Generation = s.backtracker.Generation
+		info.BTLongest = s.backtracker.Longest
+	}
+	info.OnepassSlots = len(s.onepassSlots)
+	return info
+}
+
+// VerifCachePools returns pointers to the DFA-cache pools of the strategy
+// searchers, keyed by role (concrete pool type depends on the build).
+func (e *Engine) VerifCachePools() map[string]any {
+	m := map[string]any{}
+	if s := e.reverseSearcher; s != nil {
+		m["ra.rev"] = &s.revCachePool
+	}
+	if s := e.reverseSuffixSearcher; s != nil {
+		m["rs.rev"] = &s.revCachePool
+		m["rs.fwd"] = &s.fwdCachePool
+	}
+	if s := e.reverseSuffixSetSearcher; s != nil {
+		m["rss.rev"] = &s.revCachePool
+	}
+	if s := e.reverseInnerSearcher; s != nil {
+		m["ri.rev"] = &s.revCachePool
+		m["ri.fwd"] = &s.fwdCachePool
+	}
+	if s := e.multilineReverseSuffixSearcher; s != nil {
+		m["mrs.fwd"] = &s.fwdCachePool
+	}
+	return m
+}
